@@ -219,7 +219,18 @@ class SuspReal(Base):
         from bluesky.utils import Msg
 
         pp = self.params.get("plans", 1)
-        self.sus = SuspendBoolHigh(
+        scn = self
+
+        class Logged(SuspendBoolHigh):
+            """The real suspender; only notes, for the diagnosis of a violation, what the engine's state was when an update was handled."""
+
+            def __call__(self, value, **kw):
+                super().__call__(value, **kw)
+                ctx = d["sig"].ctx
+                ctx.timeline.append(("sus_call", value, str(self.RE.state) if self.RE is not None else None, round(ctx.loop.time(), 6)))
+
+        Logged.__name__ = "SuspendBoolHigh"
+        self.sus = Logged(
             d["sig"],
             sleep=self.params.get("sleep", 2),
             pre_plan=[Msg("null", None, "PRE")] if pp else None,
@@ -528,3 +539,82 @@ class FlyOnly(Base):
         import bluesky.plans as bp
 
         return bp.fly([d["fly"]])
+
+
+@register
+class Susp2(Base):
+    """Two real SuspendBoolHigh suspenders (signals sa, sb) installed on one engine.
+
+    params['pre']: history before the call over  T/O = sa.put(1)/put(0),  t/o = sb.put(1)/put(0),  R/r = RE.remove_suspender(A/B).
+    params['order']: which tripped signal the environment brings back first ('ab' | 'ba').
+    """
+
+    id = "susp2"
+
+    def devices(self, ctx):
+        return {
+            "sa": FakeSignal(ctx, "sa", initial=0),
+            "sb": FakeSignal(ctx, "sb", initial=0),
+            "det": FakeDet(ctx, "det", is_async=self.a, stageable=False),
+        }
+
+    def configure(self, RE, d):
+        from bluesky.suspenders import SuspendBoolHigh
+
+        self.RE = RE
+        sl = self.params.get("sleep", 0)
+        ho = self.params.get("ho", "ab")
+
+        class Ordered(SuspendBoolHigh):
+            """RE.suspenders is a set: give the two members fixed hashes so that its iteration order is the same in every
+            execution (params['ho'] picks which of the two orders)."""
+
+            def __hash__(self):
+                return self._bsv_hash
+
+        Ordered.__name__ = "SuspendBoolHigh"
+        self.sus = {"a": Ordered(d["sa"], sleep=sl), "b": Ordered(d["sb"], sleep=sl)}
+        self.sus["a"]._bsv_hash = 1 + ho.index("a")
+        self.sus["b"]._bsv_hash = 1 + ho.index("b")
+        for k in self.params.get("install", "ab"):
+            RE.install_suspender(self.sus[k])
+        self.log = []
+        for op in self.params.get("pre", ""):
+            self.do_op(op, d)
+
+    def do_op(self, op, d):
+        try:
+            if op in "Tt":
+                d["sa" if op == "T" else "sb"].put(1)
+            elif op in "Oo":
+                d["sa" if op == "O" else "sb"].put(0)
+            elif op in "Rr":
+                self.RE.remove_suspender(self.sus["a" if op == "R" else "b"])
+            self.log.append((op, None))
+        except Exception as e:  # noqa: BLE001 - whatever is raised is the observation
+            self.log.append((op, type(e).__name__))
+
+    def custom_event(self, sess, ev):
+        before = len(self.log)
+        self.do_op(ev[1], sess.d)
+        sess.timeline.append(("op", ev[1], self.log[before][1] if len(self.log) > before else None))
+
+    def env_default(self, sess):
+        for k in self.params.get("order", "ab"):
+            sig = sess.d["s" + k]
+            if sig.get():
+                sess.timeline.append(("env_release", k))
+                sig.put(0)
+                return True
+        return False
+
+    def plan(self, d):
+        import bluesky.plan_stubs as bps
+
+        def plan():
+            yield from bps.open_run()
+            yield from bps.checkpoint()
+            yield from bps.trigger_and_read([d["det"]])
+            yield from bps.close_run()
+
+        return plan()
